@@ -2,6 +2,7 @@ import PrysmVerif.Lemmas.C03Fourier
 import Mathlib.Tactic.LinearCombination
 /-! # C03 — `fftshift ∘ fft ∘ ifftshift` is the centred DFT (index rotations by `N//2`, every length) -/
 open C03Lemmas
+open scoped C01
 namespace C03Lemmas
 open Model.C03
 variable {R V : Type} [Field R] [Field V]
